@@ -37,6 +37,8 @@ def run(ctx):
     # the refusing conversions are what the layout writers use: every to_ne_bytes that feeds the output of a
     # constructor takes a value produced by to_u16/to_u32 or a proven-narrow cast
     for name in ("pocket_types::json::to_u16", "pocket_types::json::to_u32"):
+        if name not in ctx.F.by_nice:
+            continue        # no conversion helper: every cast is judged by G-NARROW above
         f = ctx.fn(name)
         an = ctx.E.an(f)
         rk = s.return_kinds(f)
